@@ -73,7 +73,7 @@ def exc_desc(exc):
         if 'dangling ring' in msg:
             return 'SyntaxError:dangling'
         if 'two edges between' in msg:
-            return 'SyntaxError:double_edge'
+            return 'SyntaxError:double'
         if 'no corresponding fragment' in msg:
             return 'SyntaxError:no_fragment'
         return 'SyntaxError:other'
